@@ -30,17 +30,24 @@ def floors(tier):
 
 def plan(seed, tier):
     n = 10 if tier == "quick" else 90
-    return [{"id": f"page-{seed}-{i}", "seed": seed * 100003 + i} for i in range(n)]
+    cases = [{"id": f"page-{seed}-{i}", "seed": seed * 100003 + i} for i in range(n)]
+    # the whole API moved into a proto sub-package (next to a sibling sub-package): nothing about the property changes
+    cases += [{"id": f"page-sub-{seed}-{i}", "seed": seed * 100003 + 6000 + i, "subpkg": True} for i in range(2 if tier == "quick" else 9)]
+    return cases
 
 
 def build_api(case):
     rng = random.Random(case["seed"])
-    return apigen.paging_api(rng, "p%d" % (case["seed"] % 100000))
+    api = apigen.paging_api(rng, "p%d" % (case["seed"] % 100000))
+    return apigen.into_subpackage(api) if case.get("subpkg") else api
 
 
 def make_history(rng, model, m, field, uid):
     """Pages of the scripted server history: [(response message, token)] plus tail pages that must never be fetched."""
     npages = rng.randint(1, 5)
+    # cursor-style services hand out ONE token for the whole listing (a server-side cursor id) until it is exhausted: only an empty
+    # token ends a listing, a repeated one does not
+    cursor = f"cursor-{uid[0]}" if rng.random() < 0.2 else None
     out_d = model.desc(m.output_type)
     fd = out_d.fields_by_name[field]
     pages = []
@@ -68,7 +75,7 @@ def make_history(rng, model, m, field, uid):
                     getattr(y, f2.name).append(f"decoy-{uid[0]}")
         if "total_size" in out_d.fields_by_name:
             y.total_size = 1000 + pi
-        tok = f"tok-{uid[0]}-{pi}" if pi < npages - 1 else ""
+        tok = (cursor or f"tok-{uid[0]}-{pi}") if pi < npages - 1 else ""
         if pi >= npages:
             tok = f"never-{pi}"
         y.next_page_token = tok
@@ -119,7 +126,7 @@ def run_case(case):
                               "pages_json": [json_format.MessageToJson(y) for y in pages], "npages": npages,
                               "mode": rng.choice(["items", "pages"]), "timeout": timeout,
                               "metadata": [["x-test-md", f"v{uid[0]}"]]})
-    script = {"root_pkg": apigen.lib_root(api.info, api.options), "calls": calls}
+    script = {"root_pkg": apigen.runner_root(api), "calls": calls}
     ev, rc, err = pipeline.run_runner("checks.c07", script, lib, timeout=400)
     if ev is None or "runner_crash" in ev or "library_import_error" in ev:
         return pipeline.runner_failed_result(ev, rc, err, api)
